@@ -77,7 +77,7 @@ pub fn check_lib(h: &LHistory) -> CheckResult {
 }
 
 #[derive(Clone, Debug, Serialize, Deserialize)]
-pub enum COp { Enc, PassEnc, KeyGen, ChangePass }
+pub enum COp { Enc, PassEnc, KeyGen, ChangePass, ChangePassSame }
 #[derive(Clone, Debug, Serialize, Deserialize)]
 pub struct CHistory { pub ops: Vec<COp> }
 pub fn check_cli(h: &CHistory) -> CheckResult {
@@ -96,6 +96,9 @@ pub fn check_cli(h: &CHistory) -> CheckResult {
                 let t = String::from_utf8(sb.read("g.txt").ok_or("no key file")?).map_err(|e| e.to_string())?; let kr = Keyring::new(&t).map_err(|e| e.to_string())?; let k = kr.get_key("k").ok_or("key missing")?;
                 let esk = k.private_key.as_ref().ok_or("no private key")?; let blob = kspec::base64_decode(esk.as_str()).ok_or("bad base64")?; fresh(&blob[4..36], "locked-key salt", idx)?;
                 let sk = Keyring::unlock_private_key(esk, b"pw").map_err(|_| "generated key does not unlock")?; fresh(sk.as_bytes(), "generated private key", idx)?; }
+            COp::ChangePassSame => { let r = sb.cmd(&["key", "change-pass", &id.carol.esk, "--env-pass"]).env("KESTREL_PASSWORD", &id.carol.password).env("KESTREL_NEW_PASSWORD", &id.carol.password).run(); ensure!(r.code == Some(0), "change-pass failed: {}", r.describe());
+                let out = r.stdout_s(); let l = out.lines().find(|l| l.starts_with("PrivateKey = ")).ok_or("no key printed")?; let blob = kspec::base64_decode(l["PrivateKey = ".len()..].trim()).ok_or("bad base64")?;
+                ensure!(blob.len() == 84 && blob[4..36] != kspec::base64_decode(&id.carol.esk).unwrap()[4..36], "change-pass to the same password kept the old salt"); fresh(&blob[4..36], "change-pass salt", idx)?; }
             COp::ChangePass => { let r = sb.cmd(&["key", "change-pass", &id.carol.esk, "--env-pass"]).env("KESTREL_PASSWORD", &id.carol.password).env("KESTREL_NEW_PASSWORD", "new").run(); ensure!(r.code == Some(0), "change-pass failed: {}", r.describe());
                 let out = r.stdout_s(); let l = out.lines().find(|l| l.starts_with("PrivateKey = ")).ok_or("no key printed")?; let esk = EncodedSk::try_from(l["PrivateKey = ".len()..].trim()).map_err(|e| e.to_string())?;
                 let blob = kspec::base64_decode(esk.as_str()).ok_or("bad base64")?; fresh(&blob[4..36], "change-pass salt", idx)?; ensure!(blob[4..36] != kspec::base64_decode(&id.carol.esk).unwrap()[4..36], "change-pass kept the old salt"); }
@@ -109,7 +112,7 @@ pub fn run(ctx: &Ctx) {
     ctx.assume("testing shows absence of repetition and of gross bias, not unpredictability of the operating system's generator");
     ctx.pbt("library_histories", ctx.n(2_000, 60_000), || (proptest::collection::vec(prop_oneof![6 => (0u8..3, proptest::option::of(0u8..3), proptest::option::of(0u8..3)).prop_map(|(input, e, p)| LOp::Enc { input, e, p }), 1 => Just(LOp::Generate)], 2..200), any::<u64>()).prop_map(|(ops, seed)| LHistory { ops, seed }), check_lib);
     ctx.shrink_iters.store(20, std::sync::atomic::Ordering::Relaxed);
-    ctx.pbt("cli_histories", ctx.n(32, 600), || proptest::collection::vec(prop_oneof![3 => Just(COp::Enc), 2 => Just(COp::PassEnc), 2 => Just(COp::KeyGen), 2 => Just(COp::ChangePass)], 2..9).prop_map(|ops| CHistory { ops }), check_cli);
+    ctx.pbt("cli_histories", ctx.n(32, 600), || proptest::collection::vec(prop_oneof![3 => Just(COp::Enc), 2 => Just(COp::PassEnc), 2 => Just(COp::KeyGen), 2 => Just(COp::ChangePass), 1 => Just(COp::ChangePassSame)], 2..9).prop_map(|ops| CHistory { ops }), check_cli);
     let (ones, bits) = (ONES.load(Ordering::Relaxed) as f64, BITS.load(Ordering::Relaxed) as f64);
     if bits > 0.0 && ctx.replay.is_none() {
         let z = (ones - bits / 2.0) / (bits / 4.0).sqrt();
